@@ -29,6 +29,8 @@ import (
 //         ext_supply{delta}       another module mints (delta > 0) or burns (delta < 0)
 // Every scenario runs on a cache-wrapped copy of one freshly initialised app (never written
 // back), so scenarios are independent of each other and of their order.
+// Whole blocks of a chain (the coinomics end blocker among the other modules' begin and end
+// blockers and the transactions of the block) are a second kind of scenario: coinchain.go.
 // Trace line: {"ev","args","ok","err","post": <state read from the real stores>, "scn": n}.
 
 func init() { register("coinomics", coinomicsMain) }
@@ -425,6 +427,9 @@ func coinomicsMain(args []string) error {
 	random := fs.Int("random", 0, "number of random scenarios")
 	steps := fs.Int("steps", 12, "steps per random scenario")
 	decvec := fs.Int("decvec", 0, "number of LegacyDec vectors to record")
+	chainScripts := fs.String("chain-scripts", "", "JSON file: array of whole-block scenarios {cfg, steps} (coinchain.go)")
+	chainRandom := fs.Int("chain-random", 0, "number of random whole-block scenarios")
+	chainSteps := fs.Int("chain-steps", 12, "blocks per random whole-block scenario")
 	seed := fs.Int64("seed", 1, "seed")
 	out := fs.String("out", "trace.ndjson", "trace output")
 	fs.Parse(args)
@@ -481,6 +486,9 @@ func coinomicsMain(args []string) error {
 				n++
 			}
 		}
+	}
+	if err := coinChainRun(tw, &scn, *chainScripts, *chainRandom, *chainSteps, *seed); err != nil {
+		return err
 	}
 	if *decvec > 0 {
 		scn++
